@@ -115,7 +115,7 @@ fn cursor_scan_single_leaf() {
 }
 
 // ---- C08-Ob2: branch + two leaves: the scan crosses the leaf boundary
-// @ob props=C08,C07,C01 tier=quick cap=900 mem=16 fns=Cursor::next,Cursor::seek_first,Cursor::current,PageNode::index_page,InnerBucket::page_node bound="branch page over two leaf pages with 2 keys each, all 4 keys symbolic and ascending; 6 calls of next()" unwind=5
+// @ob props=C08,C07,C01 tier=quick cap=900 fns=Cursor::next,Cursor::seek_first,Cursor::current,PageNode::index_page,InnerBucket::page_node bound="branch page over two leaf pages with 2 keys each, all 4 keys symbolic and ascending; 6 calls of next()" unwind=5
 #[kani::proof]
 #[kani::unwind(5)]
 fn cursor_scan_two_leaves() {
@@ -142,7 +142,7 @@ fn cursor_scan_two_leaves() {
 }
 
 // ---- C08-Ob3: seek on one leaf: reports presence; iteration continues from the key or an immediate neighbour
-// @ob props=C08,C07 tier=quick cap=900 mem=16 fns=Cursor::seek,search,Cursor::next,Cursor::current,PageNode::index bound="root leaf page with 3 sorted symbolic 2-byte keys; seek key symbolic 2 bytes; then up to 4 calls of next()" unwind=5
+// @ob props=C08,C07 tier=quick cap=900 fns=Cursor::seek,search,Cursor::next,Cursor::current,PageNode::index bound="root leaf page with 3 sorted symbolic 2-byte keys; seek key symbolic 2 bytes; then up to 4 calls of next()" unwind=5
 #[kani::proof]
 #[kani::unwind(5)]
 fn cursor_seek_single_leaf() {
@@ -247,7 +247,9 @@ fn range_case(sk: u8, ek: u8) {
     }
     let d = r.next();
     assert!(d.is_none(), "and nothing else");
-    kani::cover!(in_bounds(&keys[1], sk, &s, ek, &e) && !in_bounds(&keys[0], sk, &s, ek, &e) && !in_bounds(&keys[2], sk, &s, ek, &e));
+    if sk != 2 && ek != 2 {
+        kani::cover!(in_bounds(&keys[1], sk, &s, ek, &e) && !in_bounds(&keys[0], sk, &s, ek, &e) && !in_bounds(&keys[2], sk, &s, ek, &e));
+    }
     kani::cover!(keys[1] == s);
     std::mem::forget(r);
     std::mem::forget(b);
@@ -325,10 +327,17 @@ pub(crate) struct Ent<'a> {
 
 /// write a leaf page at `page_id` of TREE: header, element headers, then packed keys / values
 pub(crate) fn put_leaf_page(page_id: usize, overflow: u64, ents: &[Ent]) {
+    put_leaf_page_at(tree_base(), page_id, overflow, ents)
+}
+
+/// the same over any page image (e.g. the model disk)
+pub(crate) fn put_leaf_page_at(image: *mut u8, page_id: usize, overflow: u64, ents: &[Ent]) {
     unsafe {
-        let base = tree_base().add(page_id * PS);
+        let base = image.add(page_id * PS);
+        // whole-word stores (the images are word typed): a sub-word store would leave the page-type
+        // byte a non-constant for CBMC's symbolic execution and every page-type test would fork
         *(base as *mut u64) = page_id as u64;
-        *base.add(8) = 2;
+        *(base.add(8) as *mut u64) = 2;
         *(base.add(16) as *mut u64) = ents.len() as u64;
         *(base.add(24) as *mut u64) = overflow;
         let n = ents.len();
@@ -336,7 +345,7 @@ pub(crate) fn put_leaf_page(page_id: usize, overflow: u64, ents: &[Ent]) {
         let mut i = 0;
         while i < n {
             let e = base.add(32 + 32 * i);
-            *e = ents[i].t;
+            *(e as *mut u64) = ents[i].t as u64;
             *(e.add(8) as *mut u64) = (off - (32 + 32 * i)) as u64;
             *(e.add(16) as *mut u64) = ents[i].k.len() as u64;
             *(e.add(24) as *mut u64) = ents[i].v.len() as u64;
@@ -362,7 +371,7 @@ pub(crate) fn put_branch_page(page_id: usize, overflow: u64, ents: &[(&[u8], u64
     unsafe {
         let base = tree_base().add(page_id * PS);
         *(base as *mut u64) = page_id as u64;
-        *base.add(8) = 1;
+        *(base.add(8) as *mut u64) = 1;
         *(base.add(16) as *mut u64) = ents.len() as u64;
         *(base.add(24) as *mut u64) = overflow;
         let n = ents.len();
@@ -385,165 +394,8 @@ pub(crate) fn put_branch_page(page_id: usize, overflow: u64, ents: &[(&[u8], u64
 }
 
 pub(crate) fn bucket_value(root_page: u64, next_int: u64) -> [u8; 16] {
-    let mut v = [0u8; 16];
+    // loop-free (harness unwind bounds are spent on the code under test)
     let a = root_page.to_le_bytes();
     let b = next_int.to_le_bytes();
-    let mut i = 0;
-    while i < 8 {
-        v[i] = a[i];
-        v[8 + i] = b[i];
-        i += 1;
-    }
-    v
-}
-
-// ---- C07: a write transaction's scans see its own puts and deletes (node overlay over the mapped pages)
-// @ob props=C07,C01 tier=quick cap=900 mem=16 fns=Cursor::next,Cursor::seek_first,Cursor::current,InnerBucket::page_node,InnerBucket::put,InnerBucket::node,PageNode::val,PageNode::len bound="root leaf page with 2 sorted symbolic keys; one put of a symbolic key (new or existing), then a full scan" unwind=5
-#[kani::proof]
-#[kani::unwind(5)]
-fn cursor_scan_after_put() {
-    let k2: [[u8; 2]; 2] = kani::any();
-    kani::assume(k2[0] < k2[1]);
-    tree_single_leaf(&[k2[0], k2[1], [0, 0]], 2);
-    let b = mk_bucket(3, true);
-    let k: [u8; 2] = kani::any();
-    let r = b.put(k, [42u8]);
-    assert!(r.is_ok());
-    std::mem::forget(r);
-    // expected sequence
-    let hit = k == k2[0] || k == k2[1];
-    let mut exp = [[0u8; 2]; 3];
-    let mut n = 0;
-    let mut placed = false;
-    let mut i = 0;
-    while i < 2 {
-        if !placed && k <= k2[i] {
-            exp[n] = k;
-            n += 1;
-            placed = true;
-        }
-        if k2[i] != k {
-            exp[n] = k2[i];
-            n += 1;
-        }
-        i += 1;
-    }
-    if !placed {
-        exp[n] = k;
-        n += 1;
-    }
-    assert!(n == if hit { 2 } else { 3 });
-    let mut c = b.cursor();
-    let mut j = 0;
-    while j < 3 {
-        if j < n {
-            let d = c.next();
-            assert!(key_of(&d) == Some(exp[j]), "the scan reflects the transaction's own put, in order");
-            if exp[j] == k {
-                if let Some(Data::KeyValue(kv)) = &d {
-                    assert!(kv.value().len() == 1 && kv.value()[0] == 42, "with the value just written");
-                }
-            }
-            std::mem::forget(d);
-        }
-        j += 1;
-    }
-    let e = c.next();
-    assert!(e.is_none());
-    kani::cover!(hit);
-    kani::cover!(!hit && k < k2[0]);
-    std::mem::forget(c);
-    std::mem::forget(b);
-}
-
-// @ob props=C07,C01 tier=quick cap=900 mem=16 fns=Cursor::next,Cursor::seek_first,Cursor::current,InnerBucket::page_node,InnerBucket::delete,InnerBucket::node bound="root leaf page with 3 sorted symbolic keys; one delete (index symbolic), then a full scan" unwind=5
-#[kani::proof]
-#[kani::unwind(5)]
-fn cursor_scan_after_delete() {
-    let keys: [[u8; 2]; 3] = kani::any();
-    kani::assume(keys[0] < keys[1] && keys[1] < keys[2]);
-    tree_single_leaf(&keys, 3);
-    let b = mk_bucket(3, true);
-    let idx: usize = kani::any();
-    kani::assume(idx < 3);
-    let r = b.delete(keys[idx]);
-    assert!(r.is_ok());
-    std::mem::forget(r);
-    let mut c = b.cursor();
-    let mut i = 0;
-    while i < 3 {
-        if i != idx {
-            let d = c.next();
-            assert!(key_of(&d) == Some(keys[i]), "the scan reflects the transaction's own delete");
-            std::mem::forget(d);
-        }
-        i += 1;
-    }
-    let e = c.next();
-    assert!(e.is_none());
-    std::mem::forget(c);
-    std::mem::forget(b);
-}
-
-// ---- C07: two leaves under a branch; the transaction empties the FIRST leaf, the scan must still deliver the second
-// @ob props=C07 tier=quick cap=1200 mem=16 fns=Cursor::next,Cursor::seek_first,Cursor::current,InnerBucket::page_node,InnerBucket::delete,InnerBucket::node,PageNode::val bound="branch page over two leaf pages with 2 symbolic keys each; both keys of the first leaf deleted in the transaction; then a full scan" unwind=5
-#[kani::proof]
-#[kani::unwind(5)]
-fn cursor_scan_after_emptying_first_leaf() {
-    let a: [[u8; 2]; 2] = kani::any();
-    let b2: [[u8; 2]; 2] = kani::any();
-    kani::assume(a[0] < a[1] && a[1] < b2[0] && b2[0] < b2[1]);
-    tree_two_leaves(&a, &b2);
-    let b = mk_bucket(3, true);
-    let r = b.delete(a[0]);
-    assert!(r.is_ok());
-    std::mem::forget(r);
-    let r = b.delete(a[1]);
-    assert!(r.is_ok());
-    std::mem::forget(r);
-    let mut c = b.cursor();
-    let d = c.next();
-    assert!(key_of(&d) == Some(b2[0]), "JV-C07-EMPTY-LEAF: the scan skips the emptied leaf and delivers the entries of the next one");
-    std::mem::forget(d);
-    let d = c.next();
-    assert!(key_of(&d) == Some(b2[1]));
-    std::mem::forget(d);
-    let e = c.next();
-    assert!(e.is_none());
-    std::mem::forget(c);
-    std::mem::forget(b);
-}
-
-// ---- C07: two leaves; put into the second leaf, scan crosses from an untouched page into a materialised node
-// @ob props=C07,C08 tier=quick cap=1200 mem=16 fns=Cursor::next,Cursor::seek_first,Cursor::current,InnerBucket::page_node,InnerBucket::put,InnerBucket::node,Node::insert_child bound="branch page over two leaf pages with 2 symbolic keys each; one new key put above the second leaf's first key; then a full scan" unwind=5
-#[kani::proof]
-#[kani::unwind(5)]
-fn cursor_scan_mixed_page_and_node() {
-    let a: [[u8; 2]; 2] = kani::any();
-    let b2: [[u8; 2]; 2] = kani::any();
-    kani::assume(a[0] < a[1] && a[1] < b2[0] && b2[0] < b2[1]);
-    tree_two_leaves(&a, &b2);
-    let b = mk_bucket(3, true);
-    let k: [u8; 2] = kani::any();
-    kani::assume(k > b2[0] && k != b2[1]);
-    let r = b.put(k, [42u8]);
-    assert!(r.is_ok());
-    std::mem::forget(r);
-    let exp = if k < b2[1] { [a[0], a[1], b2[0], k, b2[1]] } else { [a[0], a[1], b2[0], b2[1], k] };
-    let mut c = b.cursor();
-    let mut i = 0;
-    while i < 5 {
-        let d = c.next();
-        assert!(key_of(&d) == Some(exp[i]), "untouched pages and materialised nodes are scanned as one ordered sequence");
-        std::mem::forget(d);
-        i += 1;
-    }
-    let e = c.next();
-    assert!(e.is_none());
-    // and a point lookup through the untouched leaf still works
-    let g = b.get(a[1]);
-    assert!(key_of(&g) == Some(a[1]));
-    std::mem::forget(g);
-    std::mem::forget(c);
-    std::mem::forget(b);
+    [a[0], a[1], a[2], a[3], a[4], a[5], a[6], a[7], b[0], b[1], b[2], b[3], b[4], b[5], b[6], b[7]]
 }
